@@ -177,7 +177,8 @@ theorem exchangeArch_spec (w : World) (hK : KInv w) (hS : SInv w) (src : Nat) (h
     (∀ t, t < w.tables.size → w'.tableIds t = w.tableIds t ∧ w'.tableMask t = w.tableMask t ∧ w'.tableRel t = w.tableRel t) ∧
     (w'.tableOf src).rows = #[] ∧
     (∀ t, t < w.tables.size → t ≠ src → t ≠ b.tbl → (w'.tableOf t).rows = (w.tableOf t).rows) ∧
-    (∀ t, t < w.tables.size → (w.tableOf t).active = true → (w'.tableOf t).target = (w.tableOf t).target) := by
+    (∀ t, t < w.tables.size → (w.tableOf t).active = true → (w'.tableOf t).target = (w.tableOf t).target) ∧
+    (∀ id, (∀ i, i < (w.tableOf src).rows.size → (rowAt w src i).ent.id ≠ id) → loc w' id = loc w id) := by
   obtain ⟨mask, tgt, dst, hm, ht, hf, hw, hb⟩ := exchangeArch_ok w src _ add rem rel target b hok
   refine ⟨mask, tgt, hm, ht, ?_⟩
   obtain ⟨hremok, _⟩ := Arche.Props.C01.remOK_of_exchangeMask _ _ _ _ hm
@@ -222,7 +223,7 @@ theorem exchangeArch_spec (w : World) (hK : KInv w) (hS : SInv w) (src : Nat) (h
     intro t h; exact (sr4.rows t (by rw [hts2]; exact h)).1
   have hsize : ((w1.tableOf src).rows.size) = (w.tableOf src).rows.size := hsz
   have hrowsrc : ∀ i, rowAt w1 src i = rowAt w src i := fun i => SameRows.rowAt_eq sr1 _ _ hs
-  refine ⟨k4, s4, ?_, ?_, ?_, ?_, ?_, hbo, ?_, ?_, ?_, ?_, ?_, ?_, ?_, ?_, ?_⟩
+  refine ⟨k4, s4, ?_, ?_, ?_, ?_, ?_, hbo, ?_, ?_, ?_, ?_, ?_, ?_, ?_, ?_, ?_, ?_⟩
   · rw [hsz4, hts2]; exact sr1.tsize
   · rw [sr4.pool, hp2, sr1.pool]
   · rw [sr4.reg, hr2, sr1.reg]
@@ -272,5 +273,7 @@ theorem exchangeArch_spec (w : World) (hK : KInv w) (hS : SInv w) (src : Nat) (h
     exact (sr1.rows t h).1
   · intro t h hact
     rw [(hfields4 t).1, (hf2 t).1, hframe t h hact]
+  · intro id hid
+    rw [SameRows.loc_eq sr4, hothers id (fun i hi => by rw [hrowsrc]; exact hid i (by rw [← hsize]; exact hi)), SameRows.loc_eq sr1]
 
 end Arche.BatchOps
